@@ -238,6 +238,43 @@ Proof. exact imported_record_in_store_proved. Qed.
 Print Assumptions imported_record_in_store.
 
 (* ------------------------------------------------------------------ *)
+(* crash points inside ImportSnapshot                                   *)
+
+(* the steps executed by a run with passing checks and no I/O failure *)
+Theorem import_run_trace : forall inp old,
+  all_checks_pass inp old -> in_env_fail inp = [] ->
+  fst (import_run inp) = success_trace (in_ssdir_exists inp).
+Proof. exact import_run_success_trace. Qed.
+Print Assumptions import_run_trace.
+
+(* a power failure after any number of steps (an I/O failure stops the run at
+   a step, which is the same prefix), on a host that does not yet record the
+   imported image: the log store never names the imported image without the
+   finalised image being in place - no half imported replica can start *)
+Theorem crash_never_half_imported : forall b k st,
+  host_consistent_with b st -> h_record_imported st = false ->
+  half_imported (host_after (firstn k (success_trace b)) st) = false.
+Proof. exact crash_never_half_imported_proved. Qed.
+Print Assumptions crash_never_half_imported.
+
+(* ... and running the tool again, from whatever the failure left, ends in the
+   completely repaired host *)
+Theorem import_rerunnable : forall b b' k st,
+  host_consistent_with b' (host_after (firstn k (success_trace b)) st) ->
+  host_after (success_trace b') (host_after (firstn k (success_trace b)) st) = mkH false false false true true.
+Proof. exact crash_then_rerun_repairs_proved. Qed.
+Print Assumptions import_rerunnable.
+
+(* observation O7 (DESIGN section 7): when the tool is run on a host that
+   already records the imported image, the steps between cleanupSnapshotDir
+   and FinalizeSnapshot leave the record without its image; a power failure
+   there needs another run of the tool (import_rerunnable) *)
+Theorem restartable_without_rerun_refuted :
+  exists k, half_imported (host_after (firstn k (success_trace true)) (mkH false false false true true)) = true.
+Proof. exact reimport_crash_window. Qed.
+Print Assumptions restartable_without_rerun_refuted.
+
+(* ------------------------------------------------------------------ *)
 (* restart                                                              *)
 
 (* PARTIAL (restart_state_is_image): on the initial recovery after the import
